@@ -101,10 +101,24 @@ def ref_eval(exprs, dps=40, timeout=600):
     out = []
     for v in vals:
         try:
-            out.append(Fraction(v) if v is not None else None)
+            out.append(_to_fraction(v) if v is not None else None)
         except Exception:
             out.append(None)
     return out
+
+
+def _to_fraction(s):
+    """decimal string of the reference evaluator -> Fraction.  mpmath has an unbounded exponent range: a value such
+    as exp(-1e300) prints with an exponent of 300 digits, and Fraction() would try to build 10**(4e299).  Anything
+    below 1e-5000 in magnitude is 0 for every tolerance used here; anything above 1e5000 is not a value."""
+    m = re.match(r"^\s*([+-]?[0-9.]+)[eE]([+-]?[0-9]+)\s*$", s)
+    if m:
+        e = int(m.group(2)) if len(m.group(2)) < 12 else (-10 ** 9 if m.group(2).startswith("-") else 10 ** 9)
+        if e < -5000:
+            return Fraction(0)
+        if e > 5000:
+            raise ValueError("out of range")
+    return Fraction(s)
 
 
 def ref_eval_parallel(exprs, dps=40, nproc=8, timeout=600):
